@@ -306,6 +306,34 @@ Arguments lm_arguments {CL} _.
 Arguments lm_clusters {CL} _.
 Arguments lm_point_labels {CL} _.
 
+(* l.pop(0) used as a statement *)
+Definition py_pop_first {A : Type} (l : list A) : res (list A) :=
+  match l with
+  | [] => Raise "IndexError"
+  | _ :: r => Ret r
+  end.
+
+(* while cond: body  - recursion on explicit fuel.  The body answers [inl s'] (go on with state s') or [inr r] (a `return r`
+   inside the loop); the loop answers [inl s] when the condition became false in state s.  Out of fuel is an error value. *)
+Fixpoint py_while {S R : Type} (fuel : nat) (cond : S -> res bool) (body : S -> res (S + R)) (s : S) : res (S + R) :=
+  match fuel with
+  | O => Raise "OutOfFuel"
+  | Datatypes.S f =>
+    c <- cond s ;;
+    if c then
+      r <- body s ;;
+      match r with
+      | inl s' => py_while f cond body s'
+      | inr v => Ret (inr v)
+      end
+    else Ret (inl s)
+  end.
+
+(* the fields of ModelState / ClusterParameters that the repopulation helpers read *)
+Record rp_args : Type := mk_rp_args { ra_min_cluster_size : Z }.
+Record rp_cluster : Type := mk_rp_cluster { rc_size : Z; rc_member_points : list Z }.
+Record rp_model : Type := mk_rp_model { rm_arguments : rp_args; rm_clusters : list rp_cluster; rm_point_labels : list Z }.
+
 (* ---- facts used by every equivalence proof ---- *)
 Lemma bind_ret {A B : Type} (a : A) (f : A -> res B) : bind (Ret a) f = f a.
 Proof. reflexivity. Qed.
